@@ -454,7 +454,7 @@ def eval_doc(ctx: Ctx, case: dict, doc: dict, conv: str, mode: str, data: Any, e
         ctx.count('encode not evaluable (badgerfish single-child wrapper ambiguity)')
         return
     if elem is None and decode_ok and not doc['tag'][0] and dict(case.get('user') or []).get('') and \
-            any('data tag does not match XSD element name' in str(e) for e in eerrors):
+            any('data tag does not match XSD element name' in str(e) or 'Unmatched tag' in str(e) for e in eerrors):
         # C17-F4 (encode side): the user-supplied default namespace is applied to the no-namespace root key
         ctx.known_hit('C17-F4')
         ctx.count('known:C17-F4 (encode)')
@@ -799,6 +799,15 @@ def run(ctx: Ctx, driver_ok: bool) -> None:
     documents(ctx, drv, variant)
     scripts(ctx, drv, variant)
     merges(ctx, drv)
+    if ctx.failures:
+        kinds: dict = {}
+        for f in ctx.failures:
+            key = f"{f['what'][:70]} | {f['case'].get('mode')} | {f['case'].get('converter')}"
+            kinds[key] = kinds.get(key, 0) + 1
+        ctx.extra['failure_kinds'] = kinds
+        ctx.extra['failure_inputs'] = [{'xml': f['case'].get('xml'), 'user': f['case'].get('user'), 'mode': f['case'].get('mode'),
+                                        'converter': f['case'].get('converter'), 'ops': f['case'].get('ops'),
+                                        'detail': json.loads(json.dumps(f['detail'], default=str))} for f in ctx.failures[:6]]
     ctx.extra['explanation'] = ('documents: 8 directed + seeded generated, every xmlns_processing mode that keeps '
                                 'namespaces, converters default/unordered/badgerfish/jsonml; scripts: seeded operation '
                                 'sequences on a bare NamespaceMapper; merges: update_namespaces')
